@@ -4,6 +4,7 @@ Property theorems only.
 -/
 import Bourse.Model.Ops
 import Bourse.Lemmas.Frame
+import Bourse.Lemmas.RefLedgerStep
 
 namespace Bourse.Props.C03
 open Bourse
@@ -195,5 +196,68 @@ example :
     let b := b0.run [.cap .ask 5 1 (some 10), .time 1, .cap .ask 5 2 (some 11), .time 2,
       .cap .bid 7 3 (some 11), .time 3, .cap .bid 2 4 (some 9), .resetVol, .time 4, .modify 3 (some 11) (some 4)]
     b.trades.length = 3 ∧ b.tradeVol = 3 ∧ (b.trades.map (·.vol)) = [5, 2, 3] := by decide
+
+
+/-! ### Record contents and conservation, for every reachable state (through the refinement) -/
+
+/-- **Every new record is a real fill.** In any state satisfying the invariant (every reachable
+state), a valid operation that does not fault appends records each of which: is stamped with the
+book time; has a positive volume; names two different orders that exist in the table after the
+operation; the passive order is on the record's side at exactly the record's price; the aggressive
+order is on the opposite side and its limit admits the price (for a market order the limit is the
+sentinel 0 / maximum price, which admits every price). -/
+theorem new_records_wellformed {b : Book} (h : Inv b) (op : Op) (hv : ValidOp op)
+    (hnf : (b.step op).1.faulted = false) :
+    ∃ new, (b.step op).1.trades = b.trades ++ new ∧
+      ∀ tr ∈ new, TradeFinal b.t ((b.step op).1.orders.map (·.order)) tr := by
+  obtain ⟨new, e, w, _, _⟩ := step_ledger h op hv hnf
+  exact ⟨new, e, w⟩
+
+/-- **Volume conservation, one operation.** Every order that exists before the operation exists
+after it with the same id, side, trader and starting volume, and its remaining volume plus the
+volume of the NEW records it takes part in equals the volume the operation explicitly gives it —
+its previous volume, unless the operation is an accepted volume modification of that very order. -/
+theorem volume_conserved_step {b : Book} (h : Inv b) (op : Op) (hv : ValidOp op)
+    (hnf : (b.step op).1.faulted = false) :
+    ∃ new, (b.step op).1.trades = b.trades ++ new ∧
+      ∀ (id : Nat) (e : Entry), b.orders[id]? = some e →
+        ∃ e', (b.step op).1.orders[id]? = some e' ∧
+          e'.order.vol + tradedOf id new = volRequested b.tick op id e.order ∧
+          e'.order.id = e.order.id ∧ e'.order.side = e.order.side ∧ e'.order.trader = e.order.trader ∧
+          e'.order.svol = e.order.svol := by
+  obtain ⟨new, e, _, c, _⟩ := step_ledger h op hv hnf
+  refine ⟨new, e, ?_⟩
+  intro id en hen
+  obtain ⟨o', ho', hr⟩ := c id en.order (by rw [abs_get, hen]; rfl)
+  rw [abs_get] at ho'
+  cases he' : (b.step op).1.orders[id]? with
+  | none => rw [he'] at ho'; cases ho'
+  | some e' => rw [he'] at ho'; injection ho' with ho'; subst ho'; exact ⟨e', rfl, hr⟩
+
+/-- **Volume conservation, whole histories.** After any valid fault-free history from a new book
+that contains no explicit volume modification, for every order: remaining volume + total volume of
+its logged trades = starting volume; and every logged trade names two existing orders. -/
+theorem volume_conserved_history (t0 tick : Nat) (trading : Bool) (ht : 0 < tick) (ops : List Op)
+    (hv : ∀ op ∈ ops, ValidOp op) (hm : ∀ op ∈ ops, NoVolModify op)
+    (hnf : NoFault (Book.new t0 tick trading) ops) :
+    let b := (Book.new t0 tick trading).run ops
+    (∀ (id : Nat) (e : Entry), b.orders[id]? = some e → e.order.vol + tradedOf id b.trades = e.order.svol) ∧
+    (∀ tr ∈ b.trades, tr.active < b.orders.length ∧ tr.passive < b.orders.length) := by
+  intro b
+  have hl := ledger_run (inv_new t0 tick trading ht) (ledgerInv_new t0 tick trading) ops hv hm hnf
+  refine ⟨?_, ?_⟩
+  · intro id e he
+    exact hl.cons id e.order (by rw [abs_get, he]; rfl)
+  · intro tr htr
+    have := hl.refs tr htr
+    simpa [abs, absOrders] using this
+
+/-- Non-vacuity: the history of the earlier example without its volume modification satisfies the
+hypotheses, trades, and conserves. -/
+example :
+    let b := (Book.new 0 1 true).run [.cap .ask 5 1 (some 10), .time 1, .cap .ask 5 2 (some 11), .time 2,
+      .cap .bid 7 3 (some 11), .time 3, .cap .bid 2 4 (some 9), .time 4, .modify 3 (some 11) none]
+    (b.orders.map fun e => (e.order.vol, e.order.svol)) = [(0, 5), (1, 5), (0, 7), (0, 2)] ∧
+    (List.range 4).map (fun id => tradedOf id b.trades) = [5, 4, 7, 2] := by decide
 
 end Bourse.Props.C03
